@@ -58,3 +58,6 @@ func GocvEncoderOffset(e *Encoder) int { return e.offset }
 func GocvKeyAt(p []byte, o int, num int, wt WireType) bool {
 	return o >= 0 && keyBefore(p, o+keyLen(num, wt), num, wt)
 }
+
+// GocvDecOK exposes the decoder's cursor invariant to contracts in other packages.
+func GocvDecOK(d *Decoder) bool { return d != nil && decOK(d) }
